@@ -37,7 +37,7 @@ theorem C03_atomic_release (s s' : St) (e : Ev) (t m : Nat) (hd : s.deferred = s
 theorem C03_enqueued_before_release (s : St) (t : Nat) (q dl : Option Nat) (c m : Nat) (to : Option Nat)
     (hop : (s.th t).op = .cvwait c m to) :
     (eff s (.sleep t (some c) dl)).deferred = some (t, m) ∧ t ∈ (eff s (.sleep t (some c) dl)).queue c := by
-  simp only [eff, effSleep, hop]
+  simp only [eff, effSleep, deferredOf, hop, enqueue]
   exact ⟨by simp, by simp [setTh, upd]⟩
 
 /-- **C03, notify_one wakes exactly the head waiter (none only if there is none); notify_all wakes
